@@ -193,3 +193,17 @@ Proof.
   split; [exact Hl' |]. split; [eauto |].
   eapply blocked_out_of_rotation; eauto. eapply reachable_run_from; eauto.
 Qed.
+
+(* ================= one-way calls ================= *)
+(* the outcome of a call is what counts, whatever its packet type: a call that fails at Send is Out _ false _ (one-way or not);
+   a one-way call that was handed to the transport is booked as a success, awaits nothing and reinstates nothing *)
+Theorem one_way_sent_effect : forall s ai p s', step s (Sent ai p) = Some s' ->
+  exists a, get ai s = Some a /\ get ai s' = Some (succ_add (now s) a) /\
+            reinst s' = reinst s /\ sel s' = sel s /\ active s' = active s /\ probeq s' = probeq s.
+Proof.
+  intros s ai p s' Hs. simpl in Hs. destruct (get ai s) as [a |] eqn:Hg; [| discriminate].
+  destruct (p && negb (memN ai (pcalls s))); [discriminate |]. exists a. split; [reflexivity |].
+  inversion Hs; subst; clear Hs.
+  assert (Hg' : get ai (put ai (succ_add (now s) a) s) = Some (succ_add (now s) a)) by (eapply get_put_same; eauto).
+  destruct p; simpl; repeat split; exact Hg'.
+Qed.
